@@ -381,10 +381,12 @@ def cuts_of(stream, maxcuts):
 
 def family_bytes(thorough):
     streams = [u for u in UNITS] + [a + b for a in UNITS for b in UNITS]
+    # bursts exactly at / just above the paste threshold 8
+    streams += [b"a" * 8, b"a" * 9, b"\x1b[A" * 3, "∂".encode() * 3, b"ab" + "∂".encode() * 2, b"\x1b[A\x1b[B" + b"ab"]
     if thorough:
         streams += [b"a" + "∂".encode() + b"\x1b[A", "ß".encode() * 3, b"\x1b" + "ß".encode()]
     for stream in streams:
-        for bursts in cuts_of(stream, 2):
+        for bursts in cuts_of(stream, 2 if len(stream) <= 6 else 1):
             for placement in ("all_first", "one_per_request"):
                 for tpat in ((0,), (5.0,), (None,), (None, 0)):
                     for th in (None, 2, 8):
